@@ -128,3 +128,14 @@ VARIANTS += [
          old="        system_attrs[\"retry_history\"].append(trial.number)\n        if self._max_retry is not None:\n            if self._max_retry < len(system_attrs[\"retry_history\"]):\n                return\n",
          new="        retry_history = system_attrs[\"retry_history\"]\n        retry_history.append(trial.number)\n        if self._max_retry is not None and self._max_retry < len(retry_history):\n            return\n"),
 ]
+
+RDB4 = "optuna/storages/_rdb/storage.py"
+VARIANTS += [
+    dict(id="c04-rdb-claim-row-not-locked", prop="C04", file=RDB4, expect="R04.1",
+         old="                trial = models.TrialModel.find_or_raise_by_id(trial_id, session, for_update=True)\n                self.check_trial_is_updatable(trial_id, trial.state)\n\n                if values is not None:\n                    for objective, v in enumerate(values):",
+         new="                trial = models.TrialModel.find_or_raise_by_id(trial_id, session)\n                self.check_trial_is_updatable(trial_id, trial.state)\n\n                if values is not None:\n                    for objective, v in enumerate(values):"),
+    # a statement-level compare-and-set makes the known finding go away (nothing else may fire)
+    dict(id="c04-neutral-rdb-statement-level-cas", prop="C04", file=RDB4, expect=None,
+         old="                if state == TrialState.RUNNING and trial.state != TrialState.WAITING:\n                    return False\n\n                trial.state = state\n",
+         new="                if state == TrialState.RUNNING and trial.state != TrialState.WAITING:\n                    return False\n\n                n_rows = session.query(models.TrialModel).filter(models.TrialModel.trial_id == trial_id, models.TrialModel.state == trial.state).update({\"state\": state})\n                if n_rows == 0:\n                    return False\n                trial.state = state\n"),
+]
